@@ -16,9 +16,32 @@ def run(ctx):
     ctx.prove('props/C04.v')
     L.lockstep(ctx, [L.mon_c04], want=['first_reg', 'second_reg', 'unreg_vs_deliver', 'unreg_vs_2deliver'])
     L.reg_sweep(ctx, L.REG_KINDS['C04'])
+    convention_probe(ctx)
     ctx.coverage['rule'] = ('previous disposition in {default, ignore, plain handler, siginfo handler} x a delivery at every boundary of a first registration '
                             '(incl. the window between sigaction and publication), of a second registration, of a concurrent first registration of another '
                             'signal; monitor: calls of the previous handler per delivery = 1 for handlers / 0 otherwise, before any action, right convention and pointers')
+
+
+def convention_probe(ctx):
+    """real deliveries (sigqueue with a payload) to a pre-existing three-argument handler, before and after another part of the
+    library (the default-action emulation, for the signals whose default does not end the process) was used on its signal:
+    it is called once per delivery and receives the kernel's info (signal number, SI_QUEUE, the payload)"""
+    if not ctx.harness(['p_c04_emu']):
+        return
+    sigs = [17, 18, 23, 28, 20, 21, 22]
+    rc, out, _ = common.sh([common.bin_path('p_c04_emu')] + [str(x) for x in sigs], timeout=120)
+    rows = [l.split(' ', 2) for l in out.split('\n') if l.startswith('V ')]
+    ctx.correspondence('chained-convention probe ran (p_c04_emu, %d signals)' % len(sigs), rc == 0 and len(rows) == len(sigs), out[-300:] if rc or len(rows) != len(sigs) else None)
+    for _, sig, res in rows:
+        ctx.evaluations += 2
+        if res.strip() != 'ok':
+            ctx.violation({'monitor': 'chained-convention', 'sig': int(sig)},
+                          'pre-existing SA_SIGINFO handler of signal %s, taken over by the library: %s (expected one call with si_signo = the signal, si_code = SI_QUEUE, '
+                          'the payload sent) - deliveries: one before and one after emulate_default_handler(%s)' % (sig, res, sig),
+                          {'convention_probe': True, 'sig': int(sig), 'row': res, 'replay': 'harness/target/debug/p_c04_emu %s' % sig})
+        else:
+            ctx.traces += 1
+    ctx.coverage['convention_probe'] = {'signals': sigs}
 
 
 def replay(ctx, path):
@@ -26,6 +49,13 @@ def replay(ctx, path):
     sc = case.get('case', {}).get('scenario')
     if case.get('case', {}).get('reg_sweep'):
         return L.reg_replay(ctx, case['case'], L.REG_KINDS['C04'])
+    if case.get('case', {}).get('convention_probe'):
+        ctx.harness(['p_c04_emu'])
+        rc, out, _ = common.sh([common.bin_path('p_c04_emu'), str(case['case']['sig'])], timeout=60)
+        print(out)
+        if ' bad ' in out:
+            print('REPRODUCED: the chained handler did not receive the kernel\'s info')
+        return 0 if ' ok' in out else 1
     if not sc:
         print(json.dumps(case, indent=1)[:3000])
         return 1
